@@ -1,19 +1,12 @@
-import DSymVerif.Driver.SymIO
+import DSymVerif.Driver.C04View
 import DSymVerif.Model.Morphism
-import DSymVerif.Spec.C04
 
 open DSymVerif DSymVerif.Proto DSymVerif.DS
 
 namespace DrvC04
 open DSymVerif.Mor DSymVerif.SpecC04
 
-/-- Spec view of transmitted tables (op = 0 outside 1..size × 0..dim) -/
-def specS (s : RawSym) : S :=
-  { size := s.size, dim := s.dim,
-    op := fun i d => if i > s.dim || d < 1 || d > s.size then 0 else
-      let e := s.opAt i d
-      if e > s.size then 0 else e,
-    v := fun i d => if i ≥ s.dim || d < 1 || d > s.size then 0 else s.vAt i d }
+open DSymVerif.DrvC04View (specS)
 
 /-- Model view: kind 0 = `PartialDSet`, kind 1 = `PartialDSym` (`none` = the modelled
     construction or a degree query panics) -/
@@ -41,14 +34,15 @@ def canonLabels (n : Nat) (p : Part) : List Nat :=
 def b2n (b : Bool) : Nat := if b then 1 else 0
 
 /-- input domain of the property: connected complete symbols -/
-def domainClauses (name : String) (a : S) (sym : Bool) : List (String × Bool) :=
-  [ (s!"{name}-is-a-complete-d-set", a.valid),
+def domainClauses (name : String) (r : RawSym) (a : S) (sym : Bool) : List (String × Bool) :=
+  [ (s!"{name}-in-domain-of-the-theorems", !sym || DrvC04View.inDomain r),
+    (s!"{name}-is-a-complete-d-set", a.valid),
     (s!"{name}-is-connected", a.connected),
     (s!"{name}-branching-defined", !sym || (a.branched && a.vConsistent)) ]
 
-def minimgClauses (a : S) (flag : Nat) (o : S) : List (String × Bool) :=
+def minimgClauses (r : RawSym) (a : S) (flag : Nat) (o : S) : List (String × Bool) :=
   let ca := classes a
-  domainClauses "input" a true ++
+  domainClauses "input" r a true ++
   [ ("result-is-a-complete-symbol", o.valid && o.branched && o.vConsistent),
     ("input-maps-onto-result-by-a-morphism", mapsOnto a o),
     ("result-size-eq-number-of-coarsest-congruence-classes", o.size == ca),
@@ -73,7 +67,7 @@ def handler : Handler := fun op inp out =>
            | _, _ => "PANIC")
         | _ => "PANIC"
       match run (do let f ← P.nat; let o ← P.rawSym; let e ← P.atEnd; if e then pure (f, o) else failure) out with
-      | some (flag, o) => (model, check (minimgClauses (specS s) flag (specS o)))
+      | some (flag, o) => (model, check (minimgClauses s (specS s) flag (specS o)))
       | none => (model, fail "no-minimal-image-returned")
   | "ismin" =>
     match run (do let k ← P.nat; let s ← P.rawSym; pure (k, s)) inp with
@@ -85,7 +79,7 @@ def handler : Handler := fun op inp out =>
       let a := specS s
       match out.toList.map String.toNat? with
       | [some flag] =>
-        (model, check (domainClauses "input" a (kind == 1) ++
+        (model, check (domainClauses "input" s a (kind == 1) ++
           [("is_minimal-iff-classes-eq-size", (flag == 1) == (classes a == a.size))]))
       | _ => (model, fail "no-flag-returned")
   | "auts" =>
@@ -103,7 +97,7 @@ def handler : Handler := fun op inp out =>
       | some fs =>
         let fs := fs.map List.toArray
         let brute := autsBrute a
-        (model, check (domainClauses "input" a (kind == 1) ++
+        (model, check (domainClauses "input" s a (kind == 1) ++
           [ ("every-listed-map-is-a-degree-preserving-op-commuting-bijection",
                fs.all fun f => isMorphism a a f && injective a f && surjective a a f),
             ("every-such-bijection-is-listed", brute.all fun g => fs.any fun f => mapEq a.size f g),
@@ -128,8 +122,9 @@ def handler : Handler := fun op inp out =>
       | none => (model, fail "no-morphism-answers-returned")
       | some fs =>
         let ans := fs.toArray
-        (model, check (domainClauses "source" a (kind == 1) ++
-          [ ("target-is-a-complete-d-set", b.valid && (kind == 0 || (b.branched && b.vConsistent))),
+        (model, check (domainClauses "source" ra a (kind == 1) ++
+          [ ("target-in-domain-of-the-theorems", kind == 0 || DrvC04View.inDomain rb),
+            ("target-is-a-complete-d-set", b.valid && (kind == 0 || (b.branched && b.vConsistent))),
             ("one-answer-per-base-image", fs.length == es.length),
             ("returned-map-is-a-morphism-with-the-base-image", es.all fun e =>
                match ans.getD e [] with
@@ -155,7 +150,7 @@ def handler : Handler := fun op inp out =>
       | some (ox, oy) =>
         let x := specS ox
         let y := specS oy
-        (model, check (domainClauses "base" a true ++ domainClauses "cover" c true ++
+        (model, check (domainClauses "base" ra a true ++ domainClauses "cover" rc c true ++
           [ ("cover-maps-onto-base-by-a-morphism", mapsOnto c a),
             ("minimal-image-of-base-is-a-connected-symbol", x.valid && x.connected && x.branched),
             ("minimal-image-of-cover-is-a-connected-symbol", y.valid && y.connected && y.branched),
@@ -192,7 +187,7 @@ def handler : Handler := fun op inp out =>
       let (expLabels, expFlags) := pairs.foldl (fun (acc : Array Nat × List Nat) (de : Nat × Nat) =>
         let g := generated a acc.1 de.1 de.2
         if degreeRespecting a g then (g, acc.2 ++ [1]) else (acc.1, acc.2 ++ [0])) (discrete a.size, [])
-      (model, check (domainClauses "input" a (kind == 1) ++
+      (model, check (domainClauses "input" s a (kind == 1) ++
         [ ("pairs-in-range", pairs.all fun de => a.inRange de.1 && a.inRange de.2),
           ("fold-succeeds-iff-generated-congruence-respects-degrees", flags == expFlags),
           ("fold-result-is-the-generated-congruence", labels == expLabels) ]))
